@@ -491,6 +491,40 @@ func ruleFCClient(r *Report) {
 			} else {
 				r.BadPath(rule, key+"/released", o.Pos(), "a handle obtained from the file cache is not released through FileCache.Close of the same cache on every path: its entry's count never returns to zero, so the descriptor is never closed (and capacity+lent bound is exceeded)", bad)
 			}
+			// ... and at most once: an explicit release next to a deferred one, or two
+			// explicit releases on one path, hand back a reference another holder owns
+			var rels []ssa.Instruction
+			deferred := false
+			eachInstr(fn, func(in ssa.Instruction) {
+				if release(in) {
+					rels = append(rels, in)
+					if _, isD := in.(*ssa.Defer); isD {
+						deferred = true
+					}
+				}
+			})
+			double := false
+			if deferred && len(rels) > 1 {
+				double = true
+			}
+			for _, a := range rels {
+				if _, isD := a.(*ssa.Defer); isD {
+					continue
+				}
+				for _, b := range rels {
+					if _, isD := b.(*ssa.Defer); isD {
+						continue
+					}
+					if reach, _ := (Search{Fn: fn, From: a, Target: isInstr(b)}).Run(); reach {
+						// the same call reached again round a loop is a new Open only if the Open is passed again
+						if again, _ := (Search{Fn: fn, From: a, Target: isInstr(b), Avoid: isInstr(o)}).Run(); again {
+							double = true
+						}
+					}
+				}
+			}
+			r.Check(!double, rule, key+"/released-once", o.Pos(), "the handle is released exactly once per Open",
+				"the handle obtained here can be released twice (an explicit FileCache.Close in addition to the deferred one, or two on one path): the second release consumes the reference of another holder of the same cached file — the next eviction, Remove or Clear closes the descriptor while that holder still uses it")
 			var esc []string
 			for _, f := range files {
 				esc = append(esc, handleEscapes(f, map[ssa.Value]bool{})...)
@@ -505,7 +539,7 @@ func ruleFCClient(r *Report) {
 	if n < 3 {
 		r.Bad(rule, "inventory", token.NoPos, fmt.Sprintf("found %d FileCache.Open client sites, expected at least 3", n))
 	}
-	r.Min(rule, 6)
+	r.Min(rule, 9)
 }
 
 func init() {
@@ -518,6 +552,8 @@ func init() {
 		ruleFCLocked(r)
 		ruleFCClient(r)
 		ruleFCListNonNil(r)
+		ruleFCUnknownClosed(r)
+		ruleFCDropAll(r)
 		// the collectors remove and truncate files the cache may have lent out
 		r.support([]string{"gc-not-current", "header-before-remove"})
 	},
